@@ -25,6 +25,7 @@ func init() {
 		Explain: "Decides the structural clauses that keep the local coordinate valid whatever peers report: in Client.Update every mutation of client state (directly or through the four update helpers, which nobody else calls) is edge-dominated by checkCoordinate(other)==nil (compatible ∧ valid) and by 0 <= rtt <= max; every path from the mutations to the successful return passes the IsValid() re-check, whose false edge resets the coordinate; the error estimate is clamped to the maximum after it is written and the height is floored at the minimum; the ping delegate caches a peer coordinate only behind Update's nil error and the payload guards; the set of writers of the client's fields is closed. The numeric range of the error beyond the clamp and the validity re-check is not decided.",
 		Run: runC20,
 		Mutants: []Mutant{
+			{Name: "rename-locals", Equivalent: true, Regexp: true, File: "serf/ping_delegate.go", Func: "func (p *pingDelegate) NotifyPingComplete(", Old: `\b(coord|dec|before|after)\b`, New: "${1}Renamed"},
 			{Name: "mutate-before-check", File: "coordinate/client.go", Func: "func (c *Client) Update(", Old: "\tif err := c.checkCoordinate(other); err != nil {\n\t\treturn nil, err\n\t}\n", New: "\trttSeconds0 := c.latencyFilter(node, rtt.Seconds())\n\t_ = rttSeconds0\n\tif err := c.checkCoordinate(other); err != nil {\n\t\treturn nil, err\n\t}\n", Expect: "R1"},
 			{Name: "negative-rtt-accepted", File: "coordinate/client.go", Func: "func (c *Client) Update(", Old: "if rtt < 0 || rtt > maxRTT {", New: "if rtt > maxRTT {", Expect: "R1"},
 			{Name: "no-validity-recheck", File: "coordinate/client.go", Func: "func (c *Client) Update(", Old: "\tif !c.coord.IsValid() {\n\t\tc.stats.Resets++\n\t\tc.coord = NewCoordinate(c.config)\n\t}\n", New: "", Expect: "R2"},
